@@ -275,6 +275,8 @@ def run_case(case, keep=False):
         v["returned"] = returned
         v["disk"] = disk_view(folder)
         v["threads"] = sum(1 for t in threading.enumerate() if t is not threading.main_thread() and t.is_alive())
+        if case.get("want_plot") and (folder / "scheduler_pickled.pickle").exists():
+            v["plot_table"] = plot_table(folder)
         obs["views"].append(v)
     if agent is not None:
         obs["actions"] = list(agent.actions)
@@ -284,6 +286,17 @@ def run_case(case, keep=False):
     if not keep:
         shutil.rmtree(folder, ignore_errors=True)
     return obs
+
+
+def plot_table(folder):
+    """The id-to-name table as the plotting utilities recover it from a checkpoint."""
+    try:
+        from black_it.plot import plot_results
+
+        t = plot_results._get_samplers_id_table(str(folder))  # noqa: SLF001
+        return [("ABCDEF".index(k[3]) if k.startswith("Tok") else HALTON_CLASS, int(v)) for k, v in t.items()]
+    except Exception as e:  # noqa: BLE001
+        return f"{type(e).__name__}: {e}"
 
 
 def case_both_scheduler(case):
@@ -380,16 +393,15 @@ def emit_case(case, obs):
     if obs.get("rl"):
         rl = ("(Some (" + clist([f"(mkS {cnat(c)} {cnat(u)} {cnat(b)} 0%nat None)" for c, u, b in obs["rl"]["samplers"]])
               + f", {cnat(obs['rl']['halton_id'])}))")
-    elif case.get("both") is not None:
-        rl = "(Some (" + clist([c_sampler(s) for s in case["both"]]) + ", 0%nat))"   # any scheduler object
     else:
         rl = "None"
+    rr = "None" if case.get("both") is None else "(Some " + clist([c_sampler(s) for s in case["both"]]) + ")"
     ops = clist([f"({c_op(op)}, {c_view(v)})" for op, v in zip(case["ops"], obs["views"])])
     return ("(mkCase " + " ".join([
         clist([cq(x) for x in case["palette"]]), cz(case["salt"]), clist([cz(d) for d in draws]),
         clist([cnat(a) for a in obs.get("actions", [])]), c_fault(case.get("fault")),
         f"(mkCfg {cnat(cfg['E'])} {copt(cfg['prec'], cnat)} {cbool(cfg['verbose'])} {cbool(cfg['saving'])})",
-        samplers, rl, cnat(obs["ctor_exn"]), ops]) + ")")
+        samplers, rl, rr, cnat(obs["ctor_exn"]), ops]) + ")")
 
 
 # ------------------------------------------------------------------ generators
@@ -446,7 +458,7 @@ def gen_case(rng, idx, max_ops=8, max_samplers=4, bs_max=4, e_max=3, allow=("cal
     kinds = list(allow)
     for _ in range(nops):
         k = rng.choice(kinds) if rng.below(3) else "calibrate"
-        if rl and k in ("checkpoint", "restore", "set_scheduler"):
+        if rl and k in ("checkpoint", "restore", "set_scheduler", "set_samplers"):
             k = "calibrate"
         if k == "calibrate":
             case["ops"].append(["calibrate", rng.randint(0, nmax)])
